@@ -1,12 +1,13 @@
 /-
   Symbolic model of the accessory side of pair-setup:
     hap/pair/setup_server_controller.go (Handle, handlePairStart, handlePairVerify, handleKeyExchange, reset)
-    hap/pair/setup_server_session.go    (SRP server session: one per controller object = per connection)
+    hap/pair/setup_server_session.go    (SRP server session: one per EXCHANGE — the controller of a connection starts with a
+                                         prepared session and draws a new one for every further start request it accepts; F43)
     hap/endpoint/pair-setup.go          (controller per connection; HTTP 500 on error)
 
   Cryptographic values are *references* (free-algebra idealisation, DESIGN.md §4): two references are equal iff
-  they were built the same way. `SRef.srp c a` is the SRP session key the server session of connection `c`
-  (fixed b, B, salt, verifier-of-the-setup-code) computes from client public key number `a`; computing it on the
+  they were built the same way. `SRef.srp c e a` is the SRP session key the `e`-th server session of connection `c`
+  (its own b, B, salt, verifier-of-the-setup-code) computes from client public key number `a`; computing it on the
   client side needs the setup code (SRP assumption, trusted base). The correspondence harness constructs the concrete
   bytes for every constructor below with its own reference SRP client / AEAD / Ed25519.
 -/
@@ -15,7 +16,7 @@ namespace Hc.PairSetup
 /-- the value of `session.PrivateKey` -/
 inductive SRef
   | nil                            -- never set (Go nil slice)
-  | srp (conn : Nat) (a : Nat)     -- S computed by connection `conn`'s server session from client key `a`
+  | srp (conn : Nat) (epoch : Nat) (a : Nat)  -- S computed by the `epoch`-th server session of connection `conn` from client key `a`
 deriving DecidableEq, Repr
 
 /-- an AEAD key as used by a sender / held in `session.EncryptionKey` -/
@@ -33,7 +34,7 @@ deriving DecidableEq, Repr
 
 /-- client proof `M1` -/
 inductive Proof
-  | validFor (conn : Nat) (a : Nat) (codeOk : Bool) -- M1 computed for connection `conn`'s B/salt, key `a`, with the right / a wrong setup code
+  | validFor (conn : Nat) (epoch : Nat) (a : Nat) (codeOk : Bool) -- M1 computed for the B/salt of the `epoch`-th session of connection `conn`, key `a`, with the right / a wrong setup code
   | garbage (n : Nat)
   | empty
 deriving DecidableEq, Repr
@@ -78,9 +79,13 @@ structure St where
   step : Step
   S : SRef
   K : KRef
+  /-- number of the SRP session in use (0 = the one prepared with the controller) -/
+  epoch : Nat := 0
+  /-- a start request was accepted before: the next one that is accepted draws a new session -/
+  started : Bool := false
 deriving DecidableEq, Repr
 
-def init : St := { step := .waiting, S := .nil, K := .zero }
+def init : St := { step := .waiting, S := .nil, K := .zero, epoch := 0, started := false }
 
 /-- observable answer: HTTP 500, or a TLV8 body (first State item, optional error code, presence of key+salt / proof / encrypted data) -/
 inductive Out
@@ -102,24 +107,31 @@ def sigOk (st : St) (name : Nat) (key : Nat) : SigRef → Bool
 
 def reset (st : St) : St := { st with step := .waiting }
 
+/-- the proof an `m3` must carry: made for this connection, this client key, with the right code — and, when sessions
+    are renewed, for the session of the CURRENT exchange -/
+def proofOk (renew : Bool) (c : Nat) (st : St) (a : Nat) : Proof → Bool
+  | .validFor c' e' a' ok => c' == c && a' == a && ok && (!renew || e' == st.epoch)
+  | _ => false
+
 /-- one request on connection `c` (the repaired controller; `fixed := false` reproduces the behaviour before the
     `fix:` commits: step kept at verifyResp when `ComputeKey` fails; slicing a short M5 and `log.Info.Panic` on an
-    authentication failure panic) -/
-def step (fixed : Bool) (c : Nat) (st : St) : In → St × Out × Save
+    authentication failure panic; `renew := false` the single SRP session per connection before F43's repair) -/
+def stepR (fixed renew : Bool) (c : Nat) (st : St) : In → St × Out × Save
   | .malformedTlv => (st, .http500, none)
   | .badMethod => (st, .http500, none)
   | .badState _ => (st, .http500, none)
   | .m1 =>
     if st.step ≠ .waiting then (reset st, .http500, none)
-    else ({ st with step := .startResp }, .tlv 2 none true false false, none)
+    else ({ st with step := .startResp, started := true,
+                    epoch := if renew && st.started then st.epoch + 1 else st.epoch }, .tlv 2 none true false false, none)
   | .m3 A p =>
     if st.step ≠ .startResp then (reset st, .http500, none)
     else match A with
       | .bad _ => (if fixed then reset st else { st with step := .verifyResp }, .http500, none)
       | .good a =>
-        let S := SRef.srp c a
-        if p = .validFor c a true then
-          ({ step := .verifyResp, S := S, K := .ofS S }, .tlv 4 none false true false, none)
+        let S := SRef.srp c (if renew then st.epoch else 0) a
+        if proofOk renew c st a p then
+          ({ st with step := .verifyResp, S := S, K := .ofS S }, .tlv 4 none false true false, none)
         else ({ st with step := .waiting, S := S }, .tlv 4 (some 2) false false false, none)
   | .m5 d =>
     if st.step ≠ .verifyResp then (reset st, .http500, none)
@@ -136,6 +148,8 @@ def step (fixed : Bool) (c : Nat) (st : St) : In → St × Out × Save
             if sigOk st name kn sig then
               ({ st with step := .exchResp }, .tlv 6 none false false true, some (name, kn))
             else (reset st, .tlv 6 (some 2) false false false, none)
+
+def step (fixed : Bool) (c : Nat) (st : St) (i : In) : St × Out × Save := stepR fixed true c st i
 
 /-- inputs that never change the controller state -/
 def In.noop : In → Bool
